@@ -198,6 +198,20 @@ def one_case(ctx, case):
     for net, p in zip(nets, params):
         ctx.oracle("parameters() order == [W,(U),b,c,(d)]", bool(np.array_equal(parameters_to_vector(net.parameters()).numpy(), flat(p, order))),
                    case, sig=f"{kind}/layout", theorem="C03_layout")
+    # history: re-initialise, write the same parameters back, the layout and every gradient must be unchanged
+    st.reinitialize_parameters()
+    nets = [st.rbm_am] + ([st.rbm_ph] if kind != "pos" else [])
+    for net, p in zip(nets, params):
+        (qc.set_prbm if kind == "dm" else qc.set_rbm)(net, p)
+        ctx.oracle("parameters() order after reinitialize_parameters()", bool(np.array_equal(parameters_to_vector(net.parameters()).numpy(), flat(p, order))),
+                   case, sig=f"{kind}/layout-after-reinit", theorem="C03_layout / C06_lands_on_parameter")
+        names = [nm for nm, _ in net.named_parameters()]
+        want = ["weights", "visible_bias", "hidden_bias"] if kind != "dm" else ["weights_W", "weights_U", "visible_bias", "hidden_bias", "aux_bias"]
+        ctx.oracle("named_parameters() order after reinitialize_parameters()", names == want, case, detail={"names": names},
+                   sig=f"{kind}/param-names-after-reinit", theorem="C06_lands_on_parameter")
+    g_again = [t.numpy().copy() for t in (st.gradient(S) if kind == "pos" else st.gradient(S, B))]
+    ctx.oracle("gradient unchanged after reinitialise + same parameters", bool(all(np.allclose(x, y, rtol=1e-12, atol=1e-12) for x, y in zip(g, g_again))),
+               case, sig=f"{kind}/gradient-after-reinit", theorem=TH[kind])
     scale = max(1.0, float(max(np.max(np.abs(x)) for x in g)))
     # finite differences of the independent NLL  == exact gradients
     for i, (e, d_) in enumerate(zip(ex, fd)):
@@ -263,6 +277,38 @@ def one_case(ctx, case):
             ctx.point("pi_grad(ph)", "aux", np.r_[pg[0].ravel(), pg[1].ravel()], np.r_[unbits(mm["pi_grad_ph"][0]), unbits(mm["pi_grad_ph"][1])], case, scale=scale)
 
 
+def fit_pairing_probe(ctx, rng, kind):
+    """a short real fit (>= 3 epochs): every row handed to compute_batch_gradients must come with ITS OWN basis in every epoch
+    (rows are made distinct so that the pairing is observable)"""
+    n = 3
+    rows = [[(k >> (n - 1 - j)) & 1 for j in range(n)] for k in range(2 ** n)]
+    rng.shuffle(rows)
+    rows = rows[:6]
+    strings = ["".join(rng.choice("XYZ") for _ in range(n)) for _ in rows]
+    strings[0] = "Z" * n
+    pair = {tuple(r): b for r, b in zip(rows, strings)}
+    case = {"kind": kind, "probe": "fit-pairing", "rows": rows, "bases": strings}
+    ctx.current_case = case
+    ctx.case(case, nontrivial=len(set(strings)) >= 3)
+    if kind == "cplx":
+        st = qc.make_complex(n, 2, qc.rand_rbm_params(rng, n, 2, 0.3), qc.rand_rbm_params(rng, n, 2, 0.3))
+    else:
+        st = qc.make_density(n, 2, 2, qc.rand_prbm_params(rng, n, 2, 2, 0.3), qc.rand_prbm_params(rng, n, 2, 2, 0.3, d_zero=True))
+    seen = []
+    orig = st.compute_batch_gradients
+
+    def cbg(k, samples_batch, neg_batch, bases_batch=None):
+        for r, b in zip(samples_batch.numpy(), np.asarray(bases_batch)):
+            seen.append((tuple(int(x) for x in r), "".join(b)))
+        return orig(k, samples_batch, neg_batch, bases_batch)
+
+    st.compute_batch_gradients = cbg
+    st.fit(torch.tensor(rows, dtype=torch.double), epochs=3, pos_batch_size=4, k=1, lr=0.01, input_bases=np.array([list(b) for b in strings]))
+    bad = [(r, b) for r, b in seen if pair.get(r) != b]
+    ctx.oracle("every training row is paired with its own basis in every epoch", not bad and len(seen) == 3 * len(rows), case,
+               detail={"bad": bad[:5], "seen": len(seen)}, sig=f"{kind}/fit-pairing", theorem="C07_own_basis (C03: NLL in each sample's own basis)")
+
+
 def gen_cases(ctx, thorough):
     rng = ctx.rng
     plan = []
@@ -289,6 +335,9 @@ def run(ctx):
     ctx.rule = RULE
     for case in gen_cases(ctx, ctx.tier == "thorough"):
         one_case(ctx, case)
+    for kind in ("cplx", "dm"):
+        for _ in range(4 if ctx.tier == "thorough" else 1):
+            fit_pairing_probe(ctx, ctx.rng, kind)
 
 
 def search(ctx):
@@ -301,4 +350,8 @@ def search(ctx):
 
 
 def replay(ctx, case):
-    one_case(ctx, case)
+    if case.get("probe") == "fit-pairing":
+        import random as _r
+        fit_pairing_probe(ctx, _r.Random(0), case["kind"])
+    else:
+        one_case(ctx, case)
